@@ -39,7 +39,7 @@ def gen_model(rng, size="small", feats=None):
         "endtime": p(0.35), "maxdur": p(0.3), "maxstops": p(0.3), "maxdist": p(0.3),
         "attrs": p(0.3), "precedence": p(0.4), "no_startloc": p(0.15), "penalties": p(0.6),
         "activation": p(0.5), "nonmetric": p(0.5), "tight": p(0.5), "user": False, "groups": False, "initial": False,
-        "colocated": False, "one_vehicle": False, "fixed_p": 0.3, "dgroups": p(0.3), "objx": p(0.35), "mult": p(0.3),
+        "colocated": False, "one_vehicle": False, "fixed_p": 0.3, "dgroups": p(0.3), "objx": p(0.35), "mult": p(0.3), "capobj": False,
     }
     if feats:
         F.update(feats)
@@ -180,6 +180,16 @@ def gen_model(rng, size="small", feats=None):
         opts["dis_start_time"] = False
     opts.update({"f_activation": rng.choice([0, 1, 3]), "f_travel": rng.choice([0, 1, 2]),
                  "f_vehicles_duration": rng.choice([0, 1, 1]), "f_unplanned": rng.choice([0, 1, 1, 2])})
+    opts["cap_obj"] = []
+    if F.get("capobj") and nres:
+        # capacity as an objective: the constraint switched off, the excess over the capacity penalised per resource
+        opts["dis_capacity"] = True
+        for r in range(nres):
+            if r == 0 or p(0.6):
+                opts["cap_obj"].append((r, rng.choice([1, 2, 10]), rng.choice([0, 0, 5])))
+        if not any(ve["capacity"] is not None for ve in vehicles):
+            vehicles[0]["capacity"] = [rng.randint(0, 3) for _ in range(nres)]
+            vehicles[0]["start_level"] = [0] * nres
     # stop groups (PlanAll, same vehicle) over whole units; member order as the factory builds it:
     # units in the order of the string-sorted stop ids of the group
     groups = []
@@ -534,7 +544,8 @@ def to_json(m):
             "maximum_wait_vehicle": o["dis_max_wait_vehicle"], "mixing_items": False, "precedence": False,
             "vehicle_start_time": o["dis_start_time"], "vehicle_end_time": o["dis_end_time"],
             "start_time_windows": o["dis_windows"]}, "enable": {"cluster": False}},
-        "objectives": {"capacities": "", "min_stops": float(o.get("f_min_stops", 0)), "early_arrival_penalty": float(o.get("f_early", 0)),
+        "objectives": {"capacities": ";".join("name=%s;factor=%d.0;offset=%d.0" % (res_names(m)[r], f, off) for r, f, off in o.get("cap_obj", [])),
+                       "min_stops": float(o.get("f_min_stops", 0)), "early_arrival_penalty": float(o.get("f_early", 0)),
                        "late_arrival_penalty": float(o.get("f_late", 0)),
                        "vehicle_activation_penalty": float(o["f_activation"]), "travel_duration": float(o["f_travel"]),
                        "vehicles_duration": float(o["f_vehicles_duration"]), "unplanned_penalty": float(o["f_unplanned"]),
@@ -589,6 +600,8 @@ def to_lines(m):
         for v, ve in enumerate(m["vehicles"]):
             if ve.get("min_stops") or ve.get("min_stops_pen"):
                 ls.append("xveh %d %d %d" % (v, ve["min_stops"], ve["min_stops_pen"]))
+    for r, f, off in o.get("cap_obj", []):
+        ls.append("capobj %d %d %d" % (r, f, off))
     if m["features"].get("mult"):
         ls.append("xmopt %s" % b(o.get("dis_multipliers")))
         for v, ve in enumerate(m["vehicles"]):
